@@ -7,6 +7,7 @@ import (
 	"math"
 	"reflect"
 	"sort"
+	"sync/atomic"
 
 	"github.com/yaricom/goNEAT/v4/neat"
 	"github.com/yaricom/goNEAT/v4/neat/genetics"
@@ -263,6 +264,29 @@ func genScenario(cfg ScenarioCfg) *rapid.Generator[Scenario] {
 	})
 }
 
+// countdownCtx reports cancellation from the (left+1)-th poll of Done/Err on; safe for concurrent use.
+type countdownCtx struct {
+	context.Context
+	left   atomic.Int64
+	closed chan struct{}
+}
+
+var closedChan = func() chan struct{} { c := make(chan struct{}); close(c); return c }()
+
+func (c *countdownCtx) Done() <-chan struct{} {
+	if c.left.Add(-1) < 0 {
+		return c.closed
+	}
+	return c.Context.Done()
+}
+
+func (c *countdownCtx) Err() error {
+	if c.left.Load() < 0 {
+		return context.Canceled
+	}
+	return c.Context.Err()
+}
+
 type epochHooks struct {
 	// turnoverMustSucceed: a NextEpoch error is a violation of the property under check (C01, C02, C16); otherwise the
 	// history ends there, counted, because the property only speaks about the populations that turnovers produce
@@ -486,8 +510,10 @@ func runScenario(sc Scenario, h epochHooks, rec *Rec) error {
 		}
 	}
 	if sc.CancelTail {
-		cctx, cancel := context.WithCancel(ctx)
-		cancel()
+		// the context reports cancellation from its k-th poll on (k from the seed, 0 = cancelled from the start): some species
+		// give up at once, others are in the middle of their reproduction when the turnover fails
+		var cctx context.Context = &countdownCtx{Context: ctx, closed: closedChan}
+		cctx.(*countdownCtx).left.Store(int64(sc.Seed % 7 * 3))
 		n := len(pop.Organisms)
 		for i, o := range pop.Organisms {
 			o.Fitness = fitnessOf(sc.Fit, sc.Epochs, i, n, o.Genotype)
@@ -496,6 +522,20 @@ func runScenario(sc Scenario, h epochHooks, rec *Rec) error {
 			rec.Class("turnover under a cancelled context returned an error")
 		} else {
 			rec.Class("turnover under a cancelled context succeeded")
+		}
+		// the caller goes on using the population after the failed turnover (the turnover has returned: nothing of it may
+		// still be running)
+		for _, sp := range pop.Species {
+			sp.ExpectedOffspring += 0
+			sp.Age += 0
+		}
+		for _, o := range pop.Organisms {
+			o.Fitness += 0
+			o.ExpectedOffspring += 0
+			if o.Genotype != nil && len(o.Genotype.Genes) > 0 {
+				o.Genotype.Genes[0].MutationNum += 0
+				o.Genotype.Id += 0
+			}
 		}
 	}
 	return nil
